@@ -58,6 +58,9 @@ func TestC06(t *testing.T) {
 		if m.acceptedSend > 0 {
 			cl = append(cl, "accepted_send")
 		}
+		if m.denomProposals > 0 && m.withdrawAfterLockEnd > 0 {
+			cl = append(cl, "denom_proposal_in_history")
+		}
 		st.Case(nt, map[string]interface{}{"history": m.log}, cl...)
 	})
 }
@@ -76,6 +79,9 @@ func TestC08(t *testing.T) {
 		}
 		if m.acceptedSend > 0 {
 			cl = append(cl, "accepted_send")
+		}
+		if m.restartMixedUnits > 0 {
+			cl = append(cl, "restart_with_type_stated_in_mixed_units")
 		}
 		st.Case(nt, map[string]interface{}{"history": m.log}, cl...)
 	})
